@@ -15,4 +15,6 @@ from checks import conc
 def run(ctx, proofs_ok):
     q = ctx.tier == "quick"
     plan = [("bpop", 3 if q else 12, w) for w in ((0, 30) if q else (0, 10, 30, 60))]
+    # a waiter is woken whatever blocking pops came and went before it (fresh instance per history x number of waiters)
+    plan.append(("bpop-history", 1 if q else 6, 0))
     conc.run_scenarios(ctx, plan, "blocking pop scenarios")
